@@ -146,8 +146,9 @@ def sde_case_2d(tid, coef, x0s, mu4, dts4, dW4, dL4, coupled, mu4c=None, dW4c=No
         pts = list(range(-47, 48, 4))
         atoms = [((a, b), 1) for a in pts for b in pts]
         driver = atomic.atom_copula_model(atoms, 2)
-        for mm in driver.models:
-            mm.blumenthal_getoor_index = lambda: 1.0
+        # margins of different activity: the index of the copula model is the largest one (epsilon = h ^ index = h)
+        driver.models[0].blumenthal_getoor_index = lambda: 0.5
+        driver.models[1].blumenthal_getoor_index = lambda: 1.0
         a = DiagX(2) if coef[0] == "diag" else Constant(m=m, d=2, constant=float(coef[1]))
         model = LevyDrivenSDEModel(driver=driver, x0=np.array([float(x) for x in x0s[:m]]), a=a)
         step = 32
